@@ -7,6 +7,10 @@
 //!   requirement = `M` | `M.m` | `M.m.p` | `M._.p` (prefix with a patch but no minor; only
 //!                 reachable through the serialised index format) | `=M.m.p[-pre]`
 //!   L: versions put in the lock file handed to `resolve_with_lock` for the *first* resolution.
+//!   R2: (optional) the root manifest's dependencies after an edit; the lock file produced by the
+//!       first phase is kept, and the decision of `ManifestFile::lock` is replayed: `UP=1` and
+//!       `copy_from_lock` if `is_lock_file_up_to_date`, else `UP=0` and `resolve_with_lock`;
+//!       the result is described by `res2 A2 E2 SD2 K2 M2`.
 //! stdout: one line per universe, `key=value` fields separated by one space:
 //!   res   ok | NoSolution | ErrDeps | ErrChoose | Err:<variant> | PANIC
 //!   A     the resolved `index_packages`, `p0:1.2.3+2.0.0,p1:0.1.0` (ids sorted, versions in the
@@ -100,11 +104,12 @@ fn parse_deps(s: &str) -> Vec<Dep> {
 struct Case {
     index: Vec<PkgVer>,
     root: Vec<Dep>,
+    root2: Option<Vec<Dep>>,
     locked: Vec<(String, SemVer)>,
 }
 
 fn parse_case(line: &str) -> Case {
-    let mut c = Case { index: vec![], root: vec![], locked: vec![] };
+    let mut c = Case { index: vec![], root: vec![], root2: None, locked: vec![] };
     for sec in line.split(' ').filter(|s| !s.is_empty()) {
         if let Some(body) = sec.strip_prefix("I:") {
             for pv in body.split(';').filter(|x| !x.is_empty()) {
@@ -113,6 +118,8 @@ fn parse_case(line: &str) -> Case {
                 let (pkg, ver) = head.split_once('@').unwrap();
                 c.index.push(PkgVer { pkg: pkg.to_owned(), ver: parse_ver(ver), deps: parse_deps(deps) });
             }
+        } else if let Some(body) = sec.strip_prefix("R2:") {
+            c.root2 = Some(parse_deps(body));
         } else if let Some(body) = sec.strip_prefix("R:") {
             c.root = parse_deps(body);
         } else if let Some(body) = sec.strip_prefix("L:") {
@@ -260,13 +267,13 @@ fn guarded<T>(f: impl FnOnce() -> Result<T, Error>) -> Result<T, String> {
     }
 }
 
-fn manifest_of(case: &Case, env: &Env) -> ManifestFile {
+fn manifest_of(root: &[Dep], env: &Env) -> ManifestFile {
     ManifestFile {
         parent_dir: env.dir.join("root"),
         name: Ident::new("root"),
         version: SemVer::new(0, 0, 1),
         minimal_nickel_version: SemVer::new(1, 0, 0),
-        dependencies: case.root.iter().map(|d| (Ident::new(&d.name), Dependency::Index(index_dep(d)))).collect(),
+        dependencies: root.iter().map(|d| (Ident::new(&d.name), Dependency::Index(index_dep(d)))).collect(),
         authors: vec![],
         description: String::new(),
         keywords: vec![],
@@ -293,18 +300,10 @@ fn do_resolve(manifest: &ManifestFile, lock: &LockFile, env: &Env) -> Result<Res
     })
 }
 
-fn run_case(case: &Case, dir: &Path) -> String {
-    let env = match setup(case, dir) {
-        Ok(e) => e,
-        Err(e) => return format!("res=SETUP:{}", e.replace(' ', "_")),
-    };
-    let manifest = manifest_of(case, &env);
-    let first_lock = lock_of(&case.locked);
-    let res = match do_resolve(&manifest, &first_lock, &env) {
-        Ok(r) => r,
-        Err(c) => return format!("res={c}"),
-    };
-    let mut out = format!("res=ok A={}", show_assignment(&res));
+/// Everything downstream of a resolution: (A, E, SD, K, M) fields with the given suffix, and the
+/// lock file if `LockFile::new` returned one.
+fn describe(res: &Resolution, manifest: &ManifestFile, root: &[Dep], env: &Env, sfx: &str) -> (String, Option<LockFile>) {
+    let mut out = format!(" A{sfx}={}", show_assignment(res));
 
     // E: every edge through `precise`
     let mut edges: Vec<String> = vec![];
@@ -316,7 +315,7 @@ fn run_case(case: &Case, dir: &Path) -> String {
             Err(_) => "!".into(),
         }
     };
-    let mut root_deps = case.root.clone();
+    let mut root_deps = root.to_vec();
     root_deps.sort_by(|a, b| a.name.cmp(&b.name));
     for d in &root_deps {
         edges.push(format!("root/{}>{}:{}={}", d.name, d.pkg, show_req(&d.req), bind(d)));
@@ -354,31 +353,48 @@ fn run_case(case: &Case, dir: &Path) -> String {
             Err(c) => sds.push(format!("{pkg}@{v}[{c}]")),
         }
     }
-    out += &format!(" E={}", edges.join(","));
-    out += &format!(" SD={}", sds.join(";"));
+    out += &format!(" E{sfx}={}", edges.join(","));
+    out += &format!(" SD{sfx}={}", sds.join(";"));
 
     // K: lock file
-    let lock = guarded(|| LockFile::new(&manifest, &res));
+    let lock = guarded(|| LockFile::new(manifest, res));
     match &lock {
-        Ok(l) => out += &format!(" K={}", show_lock(l)),
-        Err(c) => out += &format!(" K={c}"),
+        Ok(l) => out += &format!(" K{sfx}={}", show_lock(l)),
+        Err(c) => out += &format!(" K{sfx}={c}"),
     }
 
     // M: package map
-    match guarded(|| res.package_map(&manifest)) {
+    match guarded(|| res.package_map(manifest)) {
         Ok(pm) => {
-            let mut top: Vec<String> = pm.top_level.iter().map(|(n, p)| format!("{}={}", n.label(), show_path(&env, p))).collect();
+            let mut top: Vec<String> = pm.top_level.iter().map(|(n, p)| format!("{}={}", n.label(), show_path(env, p))).collect();
             top.sort();
             let mut pk: Vec<String> =
-                pm.packages.iter().map(|((pp, n), p)| format!("{}/{}={}", show_path(&env, pp), n.label(), show_path(&env, p))).collect();
+                pm.packages.iter().map(|((pp, n), p)| format!("{}/{}={}", show_path(env, pp), n.label(), show_path(env, p))).collect();
             pk.sort();
-            out += &format!(" M=ok{{{}|{}}}", top.join(","), pk.join(","));
+            out += &format!(" M{sfx}=ok{{{}|{}}}", top.join(","), pk.join(","));
         }
-        Err(c) => out += &format!(" M={c}"),
+        Err(c) => out += &format!(" M{sfx}={c}"),
     }
+    (out, lock.ok())
+}
+
+fn run_case(case: &Case, dir: &Path) -> String {
+    let env = match setup(case, dir) {
+        Ok(e) => e,
+        Err(e) => return format!("res=SETUP:{}", e.replace(' ', "_")),
+    };
+    let manifest = manifest_of(&case.root, &env);
+    let first_lock = lock_of(&case.locked);
+    let res = match do_resolve(&manifest, &first_lock, &env) {
+        Ok(r) => r,
+        Err(c) => return format!("res={c}"),
+    };
+    let (desc, lock) = describe(&res, &manifest, &case.root, &env, "");
+    let mut out = format!("res=ok{desc}");
 
     // RL / RK: resolve again with the lock file just produced
-    if let Ok(l) = &lock {
+    let mut reread_lock = None;
+    if let Some(l) = &lock {
         // through the on-disk format, as the CLI does
         let lpath = env.dir.join("Nickel-pkg.lock");
         let reread = guarded(|| {
@@ -401,12 +417,46 @@ fn run_case(case: &Case, dir: &Path) -> String {
                         }
                         Err(c) => out += &format!(" RL={c}"),
                     }
+                    reread_lock = Some(l2);
                 }
             }
             Err(c) => out += &format!(" RL=LOCKIO:{c}"),
         }
     } else {
         out += " RL=skipped";
+    }
+
+    // Second phase: the manifest is edited (R2:), the lock file stays.  This is what
+    // `ManifestFile::lock` does: keep the lock (copy_from_lock) if it is up to date for the new
+    // manifest, otherwise resolve again preferring the locked versions.
+    if let (Some(root2), Some(l)) = (&case.root2, &reread_lock) {
+        let manifest2 = manifest_of(root2, &env);
+        let up = guarded(|| {
+            let snap = Snapshot::new(&env.config, &manifest2.parent_dir, &manifest2)?;
+            Ok(manifest2.is_lock_file_up_to_date(&snap, l))
+        });
+        match up {
+            Ok(up) => {
+                out += &format!(" UP={}", if up { 1 } else { 0 });
+                let res2 = if up {
+                    guarded(|| {
+                        let snap = Snapshot::new(&env.config, &manifest2.parent_dir, &manifest2)?;
+                        let index = PackageIndex::shared(env.config.clone())?;
+                        resolve::copy_from_lock(l, snap, index, env.config.clone())
+                    })
+                } else {
+                    do_resolve(&manifest2, l, &env)
+                };
+                match res2 {
+                    Ok(r2) => {
+                        let (d2, _) = describe(&r2, &manifest2, root2, &env, "2");
+                        out += &format!(" res2=ok{d2}");
+                    }
+                    Err(c) => out += &format!(" res2={c}"),
+                }
+            }
+            Err(c) => out += &format!(" UP={c}"),
+        }
     }
     out
 }
@@ -419,12 +469,15 @@ fn main() {
     }
     let tmp = std::env::var("TMPDIR").unwrap_or("/tmp".into());
     let base = PathBuf::from(tmp).join(format!("verif-c20-{}", std::process::id()));
+    // a killed earlier process with the same pid may have left its scratch directory behind
+    let _ = std::fs::remove_dir_all(&base);
     let stdin = std::io::stdin();
     let stdout = std::io::stdout();
     let mut w = std::io::BufWriter::new(stdout.lock());
     for (n, line) in stdin.lock().lines().enumerate() {
         let line = line.unwrap();
         let dir = base.join(n.to_string());
+        let _ = std::fs::remove_dir_all(&dir);
         let r = catch_unwind(AssertUnwindSafe(|| {
             let case = parse_case(&line);
             run_case(&case, &dir)
